@@ -15,7 +15,7 @@ tokens; (c) every interface name over {a,B,1,-,.} up to length 7 (97 655) and ev
 tokens over {?, [], [string], int, T, (), (a: int), (a, b)} (37 448); (d) all 9 kind x kind name collisions and \
 random multi-duplicate definitions. Oracle for (b)-(d): differential against a hand-written reference recogniser \
 (same verdict; on accept same structure and documentation; duplicates -> definition error naming every \
-duplicated name); inputs the recogniser marks `unspecified` are skipped and counted. Non-trivial: the text has a \
+duplicated name); inputs the recogniser marks `unspecified` are skipped and counted. Every documentation text runs from its first `#` to the last non-blank character of the comment block. One definition in 24 has 32..61 interleaved members. Non-trivial: the text has a \
 hyphen or upper case in its interface name, a nested optional/array/map, trivia inside parentheses, a duplicate, or \
 is a near-miss mutant; distinct by text.";
 
